@@ -574,6 +574,7 @@ package quickfix
 
 //@ func parseGroup [C09,C11,C13]
 //@   atcall add [C11] @section (arg0 == &mp.msg.Header.FieldMap ==> len(arg1) == 1 && (isheadertag(arg1[0].tag) || (mp.transportDataDictionary != nil && has(mp.transportDataDictionary.Header.Fields, arg1[0].tag)))) && (arg0 == &mp.msg.Trailer.FieldMap ==> len(arg1) == 1 && (istrailertag(arg1[0].tag) || (mp.transportDataDictionary != nil && has(mp.transportDataDictionary.Trailer.Fields, arg1[0].tag))))
+//@   atcall add [C11] @bodyonly arg0 == &mp.msg.Body.FieldMap && len(arg1) == 1 && arr(arg1) == arr(mp.msg.fields) && off(arg1) == off(mp.msg.fields) + mp.fieldIndex ==> !(isheadertag(arg1[0].tag) || (mp.transportDataDictionary != nil && has(mp.transportDataDictionary.Header.Fields, arg1[0].tag))) && !(istrailertag(arg1[0].tag) || (mp.transportDataDictionary != nil && has(mp.transportDataDictionary.Trailer.Fields, arg1[0].tag)))
 //@   lemmas none
 //@   replay ParseMessageWithDataDictionary(NewMessage(), bytes.NewBuffer(${mp.rawBytes}), nil, nil)
 //@   requires mp != nil && mp.msg != nil && mapsok(mp.msg) && len(tags) >= 1
